@@ -286,6 +286,11 @@ type in struct {
 	BidShape string `json:"bid_shape,omitempty"` // "" valid | bad-hash | zero-amount | no-hash: the request given to the bidder node's API
 	// "" a bidder node and a provider node | bootnode: a bootnode and a provider that dials it
 	Scene string `json:"scene,omitempty"`
+	// after the first request a second one follows through the same nodes: same hashes, amount and
+	// block, another decay window (a re-bid for the next slot)
+	Sibling bool `json:"sibling,omitempty"`
+	// the stake / prepay amounts are written with leading zeros (decimal all the same)
+	OpsPadded bool `json:"ops_padded,omitempty"`
 }
 
 type obs struct {
@@ -506,7 +511,6 @@ func run(sc in, rng *vh.Rng, cert, keyf string) (o obs) {
 	txh := hex.EncodeToString(rng.Bytes(32))
 	amount := fmt.Sprint(1 + rng.Intn(1000000))
 	blk, ds, de := int64(1+rng.Intn(100000)), int64(1+rng.Intn(100000)), int64(200000+rng.Intn(100000))
-	sctx, scancel := context.WithTimeout(ctx, 8*time.Second)
 	req := &bidderapiv1.Bid{TxHashes: []string{txh}, Amount: amount, BlockNumber: blk, DecayStartTimestamp: ds, DecayEndTimestamp: de}
 	switch sc.BidShape {
 	case "bad-hash":
@@ -515,22 +519,36 @@ func run(sc in, rng *vh.Rng, cert, keyf string) (o obs) {
 		req.Amount = "0"
 	case "no-hash":
 		req.TxHashes = nil
+	case "padded-amount":
+		req.Amount = "000" + amount
 	}
-	stream, err := bidder.SendBid(sctx, req)
-	var got []*bidderapiv1.Commitment
-	if err == nil {
-		for {
-			cm, err := stream.Recv()
-			if err != nil {
-				if err != io.EOF && status.Code(err) == codes.InvalidArgument {
-					o.APIRefused = true
+	reqs := []*bidderapiv1.Bid{req}
+	if sc.Sibling {
+		reqs = append(reqs, &bidderapiv1.Bid{TxHashes: req.TxHashes, Amount: req.Amount, BlockNumber: blk,
+			DecayStartTimestamp: ds + 12000, DecayEndTimestamp: de + 12000})
+	}
+	type answered struct {
+		req *bidderapiv1.Bid
+		cm  *bidderapiv1.Commitment
+	}
+	var got []answered
+	sctx, scancel := context.WithTimeout(ctx, 8*time.Second)
+	for _, rq := range reqs {
+		stream, err := bidder.SendBid(sctx, rq)
+		if err == nil {
+			for {
+				cm, err := stream.Recv()
+				if err != nil {
+					if err != io.EOF && status.Code(err) == codes.InvalidArgument {
+						o.APIRefused = true
+					}
+					break
 				}
-				break
+				got = append(got, answered{rq, cm})
 			}
-			got = append(got, cm)
+		} else if status.Code(err) == codes.InvalidArgument {
+			o.APIRefused = true
 		}
-	} else if status.Code(err) == codes.InvalidArgument {
-		o.APIRefused = true
 	}
 	scancel()
 	time.Sleep(100 * time.Millisecond)
@@ -565,7 +583,8 @@ func run(sc in, rng *vh.Rng, cert, keyf string) (o obs) {
 	}
 	o.CommitTxsAt, o.CommitTxFrom, o.OtherTxs = uniq(o.CommitTxsAt), uniq(o.CommitTxFrom), uniq(o.OtherTxs)
 	o.CommitMatches = true
-	for _, cm := range got {
+	for _, g := range got {
+		cm, rq := g.cm, g.req
 		if !strings.EqualFold(strings.TrimPrefix(cm.ProviderAddress, "0x"), hex.EncodeToString(pKS.GetAddress().Bytes())) {
 			o.ProviderIsP = false
 		}
@@ -581,14 +600,16 @@ func run(sc in, rng *vh.Rng, cert, keyf string) (o obs) {
 			a4, _ := t.Args[4].(uint64)
 			a5, _ := t.Args[5].([]byte)
 			a6, _ := t.Args[6].([]byte)
-			if fmt.Sprint(a0) == cm.BidAmount && int64(a1) == cm.BlockNumber && a2 == strings.Join(cm.TxHashes, ",") &&
+			if vh.Big(cm.BidAmount) != nil && fmt.Sprint(a0) == vh.Big(cm.BidAmount).String() && int64(a1) == cm.BlockNumber && a2 == strings.Join(cm.TxHashes, ",") &&
 				int64(a3) == cm.DecayStartTimestamp && int64(a4) == cm.DecayEndTimestamp &&
 				hex.EncodeToString(a5) == cm.ReceivedBidSignature && hex.EncodeToString(a6) == cm.CommitmentSignature &&
 				t.From == pKS.GetAddress() {
 				found = true
 			}
 		}
-		if !found || cm.BidAmount != amount || cm.BlockNumber != blk || strings.Join(cm.TxHashes, ",") != txh {
+		// ... and reproduces the request it answers, verbatim
+		if !found || cm.BidAmount != rq.Amount || cm.BlockNumber != rq.BlockNumber || strings.Join(cm.TxHashes, ",") != strings.Join(rq.TxHashes, ",") ||
+			cm.DecayStartTimestamp != rq.DecayStartTimestamp || cm.DecayEndTimestamp != rq.DecayEndTimestamp {
 			o.CommitMatches = false
 		}
 	}
@@ -601,6 +622,9 @@ func run(sc in, rng *vh.Rng, cert, keyf string) (o obs) {
 		c.mu.Unlock()
 		nBefore := len(txs)
 		stakeAmt, prepayAmt := fmt.Sprint(7+rng.Intn(1000)), fmt.Sprint(7+rng.Intn(1000))
+		if sc.OpsPadded {
+			stakeAmt, prepayAmt = "00"+stakeAmt, "0"+prepayAmt
+		}
 		octx, ocancel := context.WithTimeout(ctx, 10*time.Second)
 		if r, err := engine.RegisterStake(octx, &providerapiv1.StakeRequest{Amount: stakeAmt}); err == nil {
 			want := new(big.Int).Add(orZero(map[bool]*big.Int{true: big.NewInt(1000000), false: nil}[sc.Staked]), vh.Big(stakeAmt))
@@ -624,7 +648,7 @@ func run(sc in, rng *vh.Rng, cert, keyf string) (o obs) {
 		later := append([]txRec{}, c.txs[nBefore:]...)
 		c.mu.Unlock()
 		for _, t := range later {
-			s := fmt.Sprintf("%s:%s.%s:%s", t.Node, t.To, t.Method, map[bool]string{true: "requested-value", false: "value=" + t.Value.String()}[t.Value.String() == stakeAmt && t.Method == "registerAndStake" || t.Value.String() == prepayAmt && t.Method == "prepay"])
+			s := fmt.Sprintf("%s:%s.%s:%s", t.Node, t.To, t.Method, map[bool]string{true: "requested-value", false: "value=" + t.Value.String()}[t.Value.String() == vh.Big(stakeAmt).String() && t.Method == "registerAndStake" || t.Value.String() == vh.Big(prepayAmt).String() && t.Method == "prepay"])
 			switch t.Method {
 			case "registerAndStake":
 				o.StakeTxAt = s
@@ -760,13 +784,14 @@ func main() {
 	defer os.Remove(cert)
 	defer os.Remove(keyf)
 	scs := []in{
-		{Tag: "nodewire", Staked: true, Allowed: true, Ops: true},
+		{Tag: "nodewire", Staked: true, Allowed: true, Ops: true, OpsPadded: true, Sibling: true},
 		{Tag: "nodewire", Staked: true, Allowed: false},
 		{Tag: "nodewire", Staked: false, Allowed: true},
 		{Tag: "nodewire", Staked: true, Allowed: true, Engine: "reject"},
 		{Tag: "nodewire", Scene: "bootnode", Staked: false},
 		{Tag: "nodewire", Scene: "bootnode", Staked: true},
 		{Tag: "nodewire", Staked: true, Allowed: true, BidShape: "bad-hash"},
+		{Tag: "nodewire", Staked: true, Allowed: true, BidShape: "padded-amount"},
 		{Tag: "nodewire", Staked: true, Allowed: true, Ops: true, OpsFault: "revert"},
 		{Tag: "nodewire", Staked: true, Allowed: true, Ops: true, OpsFault: "reject"},
 	}
